@@ -6,7 +6,10 @@ import (
 	"encoding/json"
 	"fmt"
 	"io"
+	"net"
+	"os"
 	"strings"
+	"syscall"
 	"testing"
 
 	"github.com/gregoryv/mq"
@@ -30,6 +33,8 @@ type caseC10 struct {
 	Prelude  []preOp    `json:"prelude,omitempty"`
 	Zero     int        `json:"zero_value_of_type,omitempty"` // 1..16: &T{} of type n-1 instead of a built packet
 	Accept   int        `json:"accept"`                       // -1: writer accepts everything; k: accepts k bytes then fails
+	ErrKind  string     `json:"writer_error,omitempty"`       // "" fresh value | closedpipe | netclosed | epipe | connreset | operror | deadline | shortwrite
+	Undef    Hex        `json:"undefined_frame,omitempty"`    // the packet is the Undefined that ReadPacket returns for this type-0 frame
 }
 
 // stringSize extracts N from the "N bytes" part of String(): the model-known
@@ -63,6 +68,13 @@ func stringSizeOK(p mq.ControlPacket, s string, n int64) (bool, string) {
 }
 
 func buildC10(c caseC10) (mq.ControlPacket, model.Packet, error) {
+	if len(c.Undef) > 0 {
+		p, err, _ := read(c.Undef)
+		if err != nil || p == nil {
+			return nil, model.Packet{}, fmt.Errorf("type-0 frame %s not decoded: %v", hx(c.Undef), err)
+		}
+		return p, model.Packet{}, nil
+	}
 	if c.Zero > 0 {
 		return api.NewZero(c.Zero - 1), model.Packet{Type: uint8(c.Zero - 1)}, nil
 	}
@@ -78,7 +90,23 @@ func checkC10(c caseC10) (frame []byte, sig, msg string) {
 	if err != nil {
 		return nil, "harness", "harness: " + err.Error()
 	}
-	injected := &guard.InjectedError{ID: c.Accept}
+	var injected error = &guard.InjectedError{ID: c.Accept}
+	switch c.ErrKind {
+	case "closedpipe":
+		injected = io.ErrClosedPipe
+	case "netclosed":
+		injected = net.ErrClosed
+	case "epipe":
+		injected = syscall.EPIPE
+	case "connreset":
+		injected = syscall.ECONNRESET
+	case "operror":
+		injected = &net.OpError{Op: "write", Net: "tcp", Err: net.ErrClosed}
+	case "deadline":
+		injected = os.ErrDeadlineExceeded
+	case "shortwrite":
+		injected = io.ErrShortWrite
+	}
 	w := &guard.ScriptWriter{Accept: c.Accept, Err: injected}
 	var n int64
 	var werr error
@@ -197,6 +225,22 @@ func TestC10(t *testing.T) {
 		}
 	}
 
+	// an Undefined that carries data (decoded from a type-0 frame) cannot be written either
+	if *vf.Shard == 0 {
+		for nib := 0; nib < 16; nib++ {
+			for _, body := range [][]byte{{1}, {1, 2, 3}, {0xca, 0xfe, 0, 0, 0, 0, 0, 0, 0, 9}} {
+				for _, accept := range []int{-1, 0, 1} {
+					c := caseC10{Undef: ref.Reframe(byte(nib), body), Model: "Undefined decoded from a type-0 frame", Accept: accept}
+					_, sig, msg := checkC10(c)
+					r.Case(vf.FPs("undef", fmt.Sprint(nib, len(body), accept)), true, "undefined-decoded", func() interface{} { return c })
+					if msg != "" {
+						r.Fail("write", c, sig, "%s", msg)
+					}
+				}
+			}
+		}
+	}
+
 	r.Rapid(t, "packets", vf.N(6000, 900000), func(t *rapid.T) {
 		typ := gen.Type(t)
 		var m model.Packet
@@ -230,9 +274,11 @@ func TestC10(t *testing.T) {
 		} else {
 			ks = []int{0, 1, 2, len(frame) - 1, rapid.IntRange(0, len(frame)-1).Draw(t, "k")}
 		}
-		for _, k := range ks {
+		errKinds := []string{"", "", "", "closedpipe", "netclosed", "epipe", "connreset", "operror", "deadline", "shortwrite"}
+		for ki, k := range ks {
 			c := base
 			c.Accept = k
+			c.ErrKind = errKinds[(ki+len(frame))%len(errKinds)]
 			_, sig, msg := checkC10(c)
 			r.Case(vf.FPs(string(frame), fmt.Sprint(k)), true, class+"/faulting-writer", func() interface{} {
 				return map[string]interface{}{"model": m.String(), "frame": hx(frame), "writer": fmt.Sprintf("accepts %d bytes then fails", k)}
